@@ -11,6 +11,23 @@
 //	                 that have met at a spin barrier each fire one to three calls at that key:
 //	                 Remove/Remove, Remove/Put, Remove/Clear, Remove/evicting Put, Get/Get, Put/Put
 //	                 and random contended mixes; Len and Size are read between the phases.
+//	mode=2 (readers) the same phases on a cache the driver has filled to its limit, with Len/Size
+//	                 readers racing an evicting Put, a Clear or a Remove, and Get/Has of a key racing
+//	                 the Put that replaces it or the Put that evicts it.
+//	mode=3 (staged)  interleavings forced by a handshake instead of luck: the size function and the
+//	                 eviction callback are hooks inside the cache's critical sections; in every act
+//	                 goroutine A makes one call (evicting Put, Put on a one-entry cache, replacing
+//	                 Put, Remove, Clear) and stops inside it at a chosen hook call (the callback for
+//	                 the victim / replaced / removed / n-th cleared entry, or the size function on its
+//	                 value - i.e. after the store has been changed and before, or in the middle of,
+//	                 the update of count and size); only then one or two probers start their calls
+//	                 (Len, Size, Get/Has of the departing and of the arriving key, sometimes a Put or
+//	                 Remove of it); A goes on as soon as every prober has either finished or is
+//	                 blocked on a mutex (its goroutine state says so - no time-out involved).  With
+//	                 every method one critical section the probers always block and their results
+//	                 are those after A's call; anything they can see while A is stopped - a count
+//	                 between two updates, a store without the entry that is being replaced - must
+//	                 still have a sequential explanation.
 //
 // Per history:
 //
@@ -171,6 +188,80 @@ type world struct {
 	global []kv
 	yields int64
 	detail []string
+	gate   atomic.Pointer[gate] // staged mode: where goroutine A stops inside its call
+}
+
+// A gate stops one goroutine (owner) inside a call of the cache: at the first call of the hook kind
+// ('c' = eviction callback, 's' = size function) whose value argument is val.  Values are unique per
+// Put, so this names one entry.  The probers wait for inside, make their calls and set done.
+type gate struct {
+	kind    byte
+	val     int
+	owner   atomic.Int64
+	armed   atomic.Int32
+	inside  chan struct{}
+	once    sync.Once
+	probers []*prober
+}
+
+type prober struct {
+	gid     atomic.Int64
+	started atomic.Int32
+	done    atomic.Int32
+}
+
+func (g *gate) open() { g.once.Do(func() { close(g.inside) }) }
+
+var gateFired, gateProbesInside, gateGaveUp int64 // statistics of the staged mode
+
+// stateOf returns the scheduler state of goroutine id as the runtime prints it ("running",
+// "runnable", "sync.Mutex.Lock", ...), "" if there is no such goroutine.
+func stateOf(id int64, buf []byte) string {
+	dump := string(buf[:runtime.Stack(buf, true)])
+	pre := "goroutine " + strconv.FormatInt(id, 10) + " ["
+	i := strings.Index(dump, pre)
+	if i < 0 {
+		return ""
+	}
+	st := dump[i+len(pre):]
+	if j := strings.IndexAny(st, ",]"); j >= 0 {
+		st = st[:j]
+	}
+	return st
+}
+
+// atGate is called by the hooks.  The owner of an armed gate stops here: it lets the probers go and
+// waits until each of them has finished or is blocked on a synchronisation primitive (which, with
+// the cache's mutex held by this very goroutine, is where a prober of a correct cache ends up).
+func (w *world) atGate(kind byte, v int) {
+	g := w.gate.Load()
+	if g == nil || g.kind != kind || g.val != v || g.owner.Load() != goid() {
+		return
+	}
+	if !g.armed.CompareAndSwap(1, 0) {
+		return
+	}
+	atomic.AddInt64(&gateFired, 1)
+	g.open()
+	buf := make([]byte, 1<<16)
+	for _, p := range g.probers {
+		for p.started.Load() == 0 {
+			runtime.Gosched()
+		}
+		for i := 0; p.done.Load() == 0; i++ {
+			if i >= 2 && blockedStates[stateOf(p.gid.Load(), buf)] {
+				break
+			}
+			if i > 200000 {
+				atomic.AddInt64(&gateGaveUp, 1)
+				break
+			}
+			runtime.Gosched()
+		}
+		if p.done.Load() != 0 {
+			atomic.AddInt64(&gateProbesInside, 1) // finished while this goroutine is inside its call
+		}
+	}
 }
 
 func newWorld(c config) *world {
@@ -185,6 +276,7 @@ func newWorld(c config) *world {
 	}
 	cb := func(k, v int) {
 		stretch()
+		w.atGate('c', v)
 		id := goid()
 		w.hmu.Lock()
 		w.global = append(w.global, kv{k, v})
@@ -193,7 +285,7 @@ func newWorld(c config) *world {
 		}
 		w.hmu.Unlock()
 	}
-	cfg := cache.LRU[int, int]().OnEvict(cb).WithSize(func(v int) int64 { stretch(); return c.size(v) })
+	cfg := cache.LRU[int, int]().OnEvict(cb).WithSize(func(v int) int64 { stretch(); w.atGate('s', v); return c.size(v) })
 	w.cc = cache.New(c.limit, cfg)
 	return w
 }
@@ -433,6 +525,23 @@ func executeDuel(c config) (hist []rec, global []kv, reasons, detail []string) {
 		if c.keys > 1 && r.intn(4) == 0 {
 			k = 1 + r.intn(c.keys-1)
 		}
+		if c.mode == 2 {
+			// readers: mostly Len, Size, Get and Has
+			switch x := r.intn(100); {
+			case x < 30:
+				return input{kind: 'l'}
+			case x < 60:
+				return input{kind: 's'}
+			case x < 75:
+				return input{kind: 'g', key: k}
+			case x < 85:
+				return input{kind: 'h', key: k}
+			case x < 93:
+				return input{kind: 'p', key: k, val: val(g)}
+			default:
+				return input{kind: 'r', key: k}
+			}
+		}
 		switch x := r.intn(100); {
 		case x < 35:
 			return input{kind: 'r', key: k}
@@ -452,6 +561,75 @@ func executeDuel(c config) (hist []rec, global []kv, reasons, detail []string) {
 	}
 	for p := 0; p < phases; p++ {
 		prog[p] = make([][]input, c.g)
+		if c.mode == 2 {
+			// readers: the driver fills the cache to its limit (keys 0.., key 0 the least recently used
+			// unless a Get follows), so that the Put of the other key has to evict
+			if r.intn(8) != 0 {
+				pre[p] = append(pre[p], input{kind: 'c'})
+				for k := 0; k < c.keys && int64(k) < c.limit; k++ {
+					pre[p] = append(pre[p], input{kind: 'p', key: k, val: val(c.g)})
+				}
+			}
+			if r.intn(4) == 0 {
+				pre[p] = append(pre[p], input{kind: 'g', key: 0})
+			}
+			t := r.intn(8)
+			reader := func(g int) input {
+				if (g+p)%2 == 0 {
+					return input{kind: 'l'}
+				}
+				return input{kind: 's'}
+			}
+			for g := 0; g < c.g; g++ {
+				var first input
+				switch t {
+				case 0, 1: // Len/Size readers against a Put that has to evict
+					if g == 0 {
+						first = input{kind: 'p', key: other, val: val(g)}
+					} else {
+						first = reader(g)
+					}
+				case 2, 3: // ... against Clear
+					if g == 0 {
+						first = input{kind: 'c'}
+					} else {
+						first = reader(g)
+					}
+				case 4: // Get/Has of a key against the Put that replaces it
+					if g == 0 {
+						first = input{kind: 'p', key: 0, val: val(g)}
+					} else if g%2 == 1 {
+						first = input{kind: 'g', key: 0}
+					} else {
+						first = input{kind: 'h', key: 0}
+					}
+				case 5: // Get of the evicted and of the arriving key against the evicting Put
+					if g == 0 {
+						first = input{kind: 'p', key: other, val: val(g)}
+					} else if g%2 == 1 {
+						first = input{kind: 'g', key: 0}
+					} else {
+						first = input{kind: 'g', key: other}
+					}
+				case 6: // readers against Remove
+					if g == 0 {
+						first = input{kind: 'r', key: 0}
+					} else {
+						first = reader(g)
+					}
+				default:
+					first = contended(g)
+				}
+				prog[p][g] = append(prog[p][g], first)
+				for n := r.intn(3); n > 0; n-- {
+					prog[p][g] = append(prog[p][g], contended(g))
+				}
+			}
+			if r.intn(2) == 0 {
+				post[p] = append(post[p], input{kind: 'l'}, input{kind: 's'})
+			}
+			continue
+		}
 		// the contended key is present at the start of most phases
 		if r.intn(8) != 0 {
 			pre[p] = append(pre[p], input{kind: 'p', key: 0, val: val(c.g)})
@@ -549,9 +727,191 @@ func executeDuel(c config) (hist []rec, global []kv, reasons, detail []string) {
 	return hist, w.global, reasons, w.detail
 }
 
+// executeStaged: see the package comment (mode=3).  Goroutine 0 is A, 1..g-1 are the probers, the
+// driver (index g) rebuilds a known state before every act.
+func executeStaged(c config) (hist []rec, global []kv, reasons, detail []string) {
+	w := newWorld(c)
+	r := newRng(c.seed*9000011 + uint64(c.run)*104729 + 17)
+	serial := 0
+	// a value no other Put of this history uses, of size res (sizes are v mod 3 when c.sizeMd = 3, else 1)
+	val := func(res int) int {
+		serial++
+		base := (serial + 1) * 30
+		if c.sizeMd == 0 {
+			return base
+		}
+		return base - base%c.sizeMd + res%c.sizeMd
+	}
+	cur := w.register()
+	drv := func(in input) rec {
+		x := w.do(c.g, in, cur)
+		hist = append(hist, x)
+		return x
+	}
+	for act := 0; act < c.ops; act++ {
+		drv(input{kind: 'c'})
+		// the entries the driver puts, oldest first: keys 0..n-1
+		var ents []kv
+		put := func(res int) {
+			e := kv{len(ents), val(res)}
+			ents = append(ents, e)
+			drv(input{kind: 'p', key: e.k, val: e.v})
+		}
+		unit := c.sizeMd == 0
+		fill := func() { // to the limit, with entries of size 1
+			for int64(len(ents)) < c.limit && len(ents) < c.keys {
+				put(1)
+			}
+		}
+		var opA input
+		var stopAt kv // the entry at whose hook call A stops
+		var probes []input
+		kind := r.intn(7)
+		newKey := c.keys // a key the driver never uses
+		switch kind {
+		case 0, 5, 6: // a Put that has to evict (6: the prober changes the cache too)
+			fill()
+			res := 1
+			if !unit && c.limit >= 2 && r.intn(2) == 0 {
+				res = 2 // evicts two
+			}
+			opA = input{kind: 'p', key: newKey, val: val(res)}
+			stopAt = ents[0]
+			if res == 2 && len(ents) > 1 && r.intn(2) == 0 {
+				stopAt = ents[1]
+			}
+			probes = []input{{kind: 'l'}, {kind: 's'}, {kind: 'g', key: 0}, {kind: 'g', key: newKey}, {kind: 'h', key: 0}, {kind: 'h', key: newKey},
+				{kind: 'g', key: len(ents) - 1}, {kind: 'l'}, {kind: 's'}}
+			if kind == 6 {
+				probes = []input{{kind: 'p', key: newKey, val: val(1)}, {kind: 'r', key: 0}, {kind: 'p', key: 0, val: val(1)}, {kind: 'r', key: newKey}, {kind: 'l'}, {kind: 's'}}
+			}
+		case 1: // a Put into a cache whose only entry has to go (count is 0 in the middle of it)
+			newRes := 1
+			switch {
+			case unit && c.limit > 1:
+				fill() // not possible with unit sizes: the oldest of a full cache goes
+			case unit:
+				put(1)
+			case c.limit <= 2:
+				put(int(c.limit)) // one value fills the limit
+			case c.limit == 3:
+				put(2)
+				newRes = 2
+			default:
+				put(2)
+				put(2)
+			}
+			opA = input{kind: 'p', key: newKey, val: val(newRes)}
+			stopAt = ents[0]
+			probes = []input{{kind: 'g', key: stopAt.k}, {kind: 'g', key: newKey}}
+			if r.intn(2) == 0 {
+				probes = append(probes, input{kind: 'l'}, input{kind: 's'})
+			}
+		case 2: // Clear
+			n := 1 + r.intn(4)
+			for i := 0; i < n && len(ents) < c.keys; i++ {
+				if unit {
+					if int64(len(ents)) < c.limit {
+						put(1)
+					}
+				} else if int64(len(ents)) < c.limit && r.intn(3) != 0 {
+					put(1)
+				} else {
+					put(0) // zero-size entries always fit
+				}
+			}
+			if len(ents) == 0 {
+				put(1)
+			}
+			opA = input{kind: 'c'}
+			stopAt = ents[r.intn(len(ents))]
+			probes = []input{{kind: 'l'}, {kind: 's'}, {kind: 'h', key: stopAt.k}, {kind: 'g', key: stopAt.k}, {kind: 'g', key: ents[len(ents)-1].k},
+				{kind: 'l'}, {kind: 's'}, {kind: 'h', key: ents[0].k}}
+		case 3: // a Put that replaces (under v mod 3 perhaps with a bigger value that also evicts)
+			fill()
+			j := r.intn(len(ents))
+			res := 1
+			if !unit && c.limit >= 2 && r.intn(2) == 0 {
+				res = 2
+			}
+			opA = input{kind: 'p', key: ents[j].k, val: val(res)}
+			stopAt = ents[j]
+			probes = []input{{kind: 'g', key: ents[j].k}, {kind: 'h', key: ents[j].k}, {kind: 'l'}, {kind: 's'}, {kind: 'g', key: ents[j].k}, {kind: 'g', key: ents[0].k}}
+		default: // 4: Remove
+			fill()
+			j := r.intn(len(ents))
+			opA = input{kind: 'r', key: ents[j].k}
+			stopAt = ents[j]
+			probes = []input{{kind: 'h', key: ents[j].k}, {kind: 'g', key: ents[j].k}, {kind: 'l'}, {kind: 's'}, {kind: 'r', key: ents[j].k},
+				{kind: 'p', key: ents[j].k, val: val(1)}}
+		}
+		g := &gate{kind: 'c', val: stopAt.v, inside: make(chan struct{})}
+		if r.intn(2) == 0 {
+			g.kind = 's'
+		}
+		np := c.g - 1
+		if np < 1 {
+			np = 1
+		}
+		progs := make([][]input, np)
+		for i := range progs {
+			g.probers = append(g.probers, &prober{})
+			// one to three probes; a prober keeps the order of the list (Get of the departing key before Get of the arriving one)
+			n := 1 + r.intn(3)
+			at := r.intn(len(probes))
+			if kind == 1 {
+				at, n = 0, len(probes)
+			}
+			for k := 0; k < n && at+k < len(probes); k++ {
+				in := probes[at+k]
+				if in.kind == 'p' {
+					in.val = val(1) // every Put of a history has its own value
+				}
+				progs[i] = append(progs[i], in)
+			}
+		}
+		w.gate.Store(g)
+		recs := make([][]rec, np+1)
+		var wg sync.WaitGroup
+		wg.Add(np + 1)
+		go func() {
+			defer wg.Done()
+			defer g.open() // if the call never reaches the hook, the probers still run
+			mine := w.register()
+			g.owner.Store(goid())
+			g.armed.Store(1)
+			recs[0] = append(recs[0], w.do(0, opA, mine))
+		}()
+		for i := 0; i < np; i++ {
+			go func(i int) {
+				defer wg.Done()
+				p := g.probers[i]
+				defer p.done.Store(1)
+				mine := w.register()
+				p.gid.Store(goid())
+				<-g.inside
+				p.started.Store(1)
+				for _, in := range progs[i] {
+					recs[i+1] = append(recs[i+1], w.do(i+1, in, mine))
+				}
+			}(i)
+		}
+		wg.Wait()
+		w.gate.Store(nil)
+		for _, rs := range recs {
+			hist = append(hist, rs...)
+		}
+	}
+	hist, reasons = w.quiesce(hist)
+	return hist, w.global, reasons, w.detail
+}
+
 func execute(c config) ([]rec, []kv, []string, []string) {
-	if c.mode == 1 {
+	switch c.mode {
+	case 1, 2:
 		return executeDuel(c)
+	case 3:
+		return executeStaged(c)
 	}
 	return executeRandom(c)
 }
@@ -844,8 +1204,9 @@ func modeOf(fixed *config, m int) int {
 }
 
 // contended counts the overlapping pairs of calls that conflict: two calls on the SAME key
-// (rr = Remove/Remove, pr = Put/Remove, gg = Get/Get, pp = Put/Put, gp, gr, ...) and calls
-// overlapping a Clear (cr, cp, cg).  These are the states the property text names.
+// (rr = Remove/Remove, pr = Put/Remove, gg = Get/Get, pp = Put/Put, gp, gr, ...), calls
+// overlapping a Clear (cr, cp, cg) and Len/Size readers overlapping a call that changes the cache
+// (lp, ps, lr, rs, cl, cs).  These are the states the property text names.
 var contended = map[string]int{}
 
 func tagOverlap(a, b input) {
@@ -854,10 +1215,14 @@ func tagOverlap(a, b input) {
 		x, y = y, x
 	}
 	keyed := func(k byte) bool { return k == 'p' || k == 'g' || k == 'r' || k == 'h' }
+	reader := func(k byte) bool { return k == 'l' || k == 's' }
+	changes := func(k byte) bool { return k == 'p' || k == 'r' || k == 'c' }
 	switch {
 	case keyed(x) && keyed(y) && a.key == b.key:
 		contended[string([]byte{x, y})]++
 	case x == 'c' && keyed(y):
+		contended[string([]byte{x, y})]++
+	case reader(x) && changes(y), reader(y) && changes(x): // Len/Size against Put, Remove, Clear: cl, cs, lp, lr, ps, rs
 		contended[string([]byte{x, y})]++
 	}
 }
@@ -983,7 +1348,7 @@ func main() {
 	runs := flag.Int("runs", 100, "histories at most")
 	minRuns := flag.Int("minruns", 10, "histories at least (whatever the budget)")
 	budget := flag.Float64("budget", 0, "seconds after which no further history is started (0 = none)")
-	mode := flag.Int("mode", 0, "0 random workload, 1 contended same-key phases")
+	mode := flag.Int("mode", 0, "0 random workload, 1 contended same-key phases, 2 readers against evicting Put/Clear/Remove, 3 staged (handshake through the hooks)")
 	procs := flag.Int("procs", 0, "GOMAXPROCS (0 = leave)")
 	gor := flag.Int("goroutines", 0, "goroutines (0 = 2..4)")
 	nops := flag.Int("ops", 0, "random: calls per goroutine (0 = 5..9); duel: phases (0 = 4..8)")
@@ -1036,6 +1401,25 @@ func main() {
 				c.keys = 1 + r.intn(2)
 			}
 			c.limit = int64(1 + r.intn(3))
+		} else if c.mode == 2 {
+			if c.ops == 0 {
+				c.ops = 4 + r.intn(5)
+			}
+			c.limit = int64(1 + r.intn(3))
+			if c.keys == 0 {
+				c.keys = int(c.limit) + r.intn(2)
+			}
+		} else if c.mode == 3 {
+			if *gor == 0 {
+				c.g = 2 + r.intn(2)
+			}
+			if c.ops == 0 {
+				c.ops = 3 + r.intn(4)
+			}
+			c.limit = int64(1 + r.intn(4))
+			if c.keys == 0 {
+				c.keys = int(c.limit) + 2
+			}
 		} else {
 			if c.ops == 0 {
 				c.ops = 5 + r.intn(5)
@@ -1099,8 +1483,9 @@ func main() {
 			dump(hist)
 		}
 	}
-	fmt.Printf("STATS mode=%d runs=%d ops=%d fails=%d nonlinearizable=%d inconclusive=%d nonLRUVictims=%d overlaps=%d procs=%d wall=%.1f contended=%s\n",
-		modeOf(fixed, *mode), done, totalOps, fails, nonlin, inconcl, atomic.LoadInt64(&nonLRU), overlaps, runtime.GOMAXPROCS(0), time.Since(t0).Seconds(), tagString())
+	fmt.Printf("STATS mode=%d runs=%d ops=%d fails=%d nonlinearizable=%d inconclusive=%d nonLRUVictims=%d overlaps=%d procs=%d wall=%.1f contended=%s gates=%d probesInside=%d gaveUp=%d\n",
+		modeOf(fixed, *mode), done, totalOps, fails, nonlin, inconcl, atomic.LoadInt64(&nonLRU), overlaps, runtime.GOMAXPROCS(0), time.Since(t0).Seconds(), tagString(),
+		atomic.LoadInt64(&gateFired), atomic.LoadInt64(&gateProbesInside), atomic.LoadInt64(&gateGaveUp))
 	if fails > 0 {
 		os.Exit(1)
 	}
